@@ -212,7 +212,8 @@ func (hm *HostsMap) rebuildMatchFiles() (matchFiles []*MatchFile) {
 			e1 := entryList[i]
 			e2 := entryList[j]
 			if e1.headers.equals(e2.headers) {
-				return e1.path > e2.path
+				// begin match is case insensitive, see also overlaps()
+				return strings.ToLower(e1.path) > strings.ToLower(e2.path)
 			}
 			return e1.hasFilter()
 		})
@@ -302,11 +303,15 @@ func (hm *HostsMap) rebuildMatchFiles() (matchFiles []*MatchFile) {
 // Exact is removed from the check because it always has priority and never overlaps
 // Regex is removed because all of its entries are processed together, giving priority to longer regexps
 func overlaps(e1, e2 *HostsMapEntry) bool {
+	// begin match is case insensitive, so a begin path overlaps
+	// paths of other match types despite of the case of their letters
+	path1 := strings.ToLower(e1.path)
+	path2 := strings.ToLower(e2.path)
 	return e1.match != e2.match &&
-		e1.path != e2.path &&
+		path1 != path2 &&
 		e1.match != MatchExact && e2.match != MatchExact &&
 		e1.match != MatchRegex && e2.match != MatchRegex &&
-		strings.HasPrefix(e1.path, e2.path)
+		strings.HasPrefix(path1, path2)
 }
 
 func findOrCreateMatchFileIfOverlaps(order *list.List, e1, e2 *HostsMapEntry) {
